@@ -428,6 +428,53 @@ pub fn check_search(ctx: &Ctx, z: &MZone, zr: TimeZoneRef<'_>, f: &Fields, sweep
         }
     }
 
+    // ---- the allocating search returns the same list (C05: same results; C06: same order, same earliest / latest / unique)
+    #[cfg(feature = "tz-alloc")]
+    {
+        match DateTime::find(f.y, f.mo, f.d, f.h, f.mi, f.s, f.ns, zr) {
+            Ok(list) => {
+                let (ae, al, au) = (list.earliest(), list.latest(), list.unique());
+                let inner = list.into_inner();
+                let same_list = inner.len() == got.len() && inner.iter().zip(got.iter()).all(|(a, b)| kind_exact_eq(a, b));
+                if !same_list {
+                    let key = |k: &FoundDateTimeKind| match k {
+                        FoundDateTimeKind::Normal(d) => (d.unix_time(), 0, d.local_time_type().ut_offset()),
+                        FoundDateTimeKind::Skipped { before_transition: b, .. } => (b.unix_time(), 1, b.local_time_type().ut_offset()),
+                    };
+                    let (mut ka, mut kb): (Vec<_>, Vec<_>) = (inner.iter().map(key).collect(), got.iter().map(key).collect());
+                    ka.sort();
+                    kb.sort();
+                    let got_a = json!(inner.iter().map(kind_json).collect::<Vec<_>>());
+                    if ka != kb {
+                        report(Prop::C05, json!({"allocating_search_returns_the_results_of_the_buffer_search": got_json()}), got_a.clone(), tl);
+                    }
+                    report(Prop::C06, json!({"allocating_search_returns_the_list_of_the_buffer_search_in_the_same_order": got_json()}), got_a, tl);
+                } else {
+                    let first = inner.first().map(|k| match k {
+                        FoundDateTimeKind::Normal(d) => *d,
+                        FoundDateTimeKind::Skipped { before_transition: b, .. } => *b,
+                    });
+                    let last = inner.last().map(|k| match k {
+                        FoundDateTimeKind::Normal(d) => *d,
+                        FoundDateTimeKind::Skipped { after_transition: a, .. } => *a,
+                    });
+                    let uniq = match inner.as_slice() {
+                        [FoundDateTimeKind::Normal(d)] => Some(*d),
+                        _ => None,
+                    };
+                    if !opt_dt_exact_eq(&ae, &first) || !opt_dt_exact_eq(&al, &last) || !opt_dt_exact_eq(&au, &uniq) {
+                        report(Prop::C06, json!({"allocating list: earliest": format!("{first:?}"), "latest": format!("{last:?}"), "unique": format!("{uniq:?}")}), json!({"earliest": format!("{ae:?}"), "latest": format!("{al:?}"), "unique": format!("{au:?}")}), tl);
+                    }
+                }
+            }
+            Err(e) => {
+                let msg = json!(format!("allocating search: Err({})", err_name(&e)));
+                report(Prop::C05, got_json(), msg.clone(), tl);
+                report(Prop::C06, got_json(), msg, tl);
+            }
+        }
+    }
+
     // ---- C14 monitor: every date-time obtained satisfies the invariant
     for k in &got {
         let mut chk = |d: &DateTime, literal: bool, tl: &mut Tally| {
@@ -879,7 +926,7 @@ fn sweep_leap_extreme(ctx: &Ctx) -> Tally {
 }
 
 /// both ends of the supported range, with and without leap seconds (instant scale vs leap-count scale at the limit)
-fn sweep_range_ends(ctx: &Ctx) -> Tally {
+pub fn sweep_range_ends(ctx: &Ctx) -> Tally {
     let cyc = ctx.cyc;
     let leap_tables: Vec<Vec<(i64, i32)>> = vec![vec![], vec![(78_796_799, -1), (94_694_398, -2)], vec![(78_796_800, 1), (94_694_401, 2)], vec![(78_796_800, 1), (94_694_401, 0), (126_230_400, -1)]];
     let mut tl = Tally::default();
@@ -1200,6 +1247,131 @@ fn sweep_tie_rules(ctx: &Ctx, tabs: &Tables, thorough: bool) -> Tally {
     t
 }
 
+/// one local reading that occurs up to 11 times (types with offsets falling by 1000 s every 1000 s) or is skipped by as many
+/// gaps (offsets rising): result lists longer than any inline capacity
+fn sweep_many_results(ctx: &Ctx) -> Tally {
+    let cyc = ctx.cyc;
+    let mut tl = Tally::default();
+    for k in [7usize, 8, 9, 10, 11] {
+        for rising in [false, true] {
+            for rule_kind in 0..2 {
+                let r = guard(|| {
+                    let mut tl = Tally::default();
+                    let types: Vec<MType> = (0..k).map(|i| MType::new(if rising { 1000 * i as i32 } else { 20_000 - 1000 * i as i32 }, i % 2 == 1, Some(&format!("T{:02}", i)))).collect();
+                    let trans: Vec<(i64, usize)> = (1..k).map(|i| (1000 * i as i64 + if rising { 0 } else { 0 }, i)).collect();
+                    let rule = if rule_kind == 1 { Some(MRule::Fixed(types[k - 1])) } else { None };
+                    let z = MZone { trans, types, leaps: vec![], rule };
+                    let iz = ImplZone::from_model(&z).unwrap();
+                    let zr = iz.zref().unwrap();
+                    tl.zones += 1;
+                    for l in (-2000i64..=32_000).step_by(250) {
+                        if let Some(f) = Fields::of_local(cyc, l, 0) {
+                            check_search(ctx, &z, zr, &f, "many_results", &mut tl);
+                        }
+                    }
+                    tl
+                });
+                match r {
+                    Ok(t) => tl = tl.merge(t),
+                    Err(m) => ctx.rec.violation("many_results", json!({"kind":"many_results","k":k,"rising":rising}), json!("no panic"), json!(m)),
+                }
+            }
+        }
+    }
+    ctx.rec.sub("many_results", tl.json());
+    tl
+}
+
+/// table + rule whose start and end coincide in some years (tie families): the last table transition sits near the coincident
+/// instant, before and after it, in tie years and in the other years; every reading around it is searched
+fn sweep_junction_ties(ctx: &Ctx) -> Tally {
+    let cyc = ctx.cyc;
+    let mut specs = crate::rule::tie_specs();
+    // the same families with a daylight offset below the standard offset and with a two-hour saving
+    for r in crate::rule::tie_specs() {
+        specs.push(RuleSpec { std_off: 3600, dst_off: 0, start_time: r.start_time + 3600, end_time: r.end_time - 3600, ..r });
+        specs.push(RuleSpec { dst_off: 7200, end_time: r.end_time + 3600, ..r });
+    }
+    let t = specs
+        .par_iter()
+        .map(|r| {
+            let mut tl = Tally::default();
+            let res = guard(|| {
+                let mut tl = Tally::default();
+                let (ms, md) = (crate::rule::std_type(r), crate::rule::dst_type(r));
+                if alt(r, &ms, &md).is_err() {
+                    return tl;
+                }
+                let rule = MRule::alt(cyc, *r, ms, md);
+                if !matches!(rule, MRule::Alt { class: Class::StartFirst | Class::EndFirst, .. }) {
+                    return tl;
+                }
+                let base = MZone { trans: vec![], types: vec![ms, md, MType::new(-7200, false, Some("LMT"))], leaps: vec![], rule: Some(rule) };
+                for y in 2019..=2026i64 {
+                    for x in [r.s(cyc, y), r.e(cyc, y)] {
+                        for dl in [-86_400i64, -7200, -3600, -1800, -1, 0, 1, 1800, 3600] {
+                            let t_last = x + dl;
+                            let ty = match base.rule_type(cyc, t_last) {
+                                Ok(t) => *t,
+                                Err(_) => continue,
+                            };
+                            let last_idx = if ty.dst { 1 } else { 0 };
+                            for prefix in 0..5 {
+                                let mut z = base.clone();
+                                z.trans = match prefix {
+                                    0 => vec![(t_last, last_idx)],
+                                    1 => vec![(t_last - 7200, 2), (t_last, last_idx)],
+                                    2 => vec![(t_last - 86_400, last_idx), (t_last - 3600, 1 - last_idx), (t_last, last_idx)],
+                                    _ => {
+                                        // the table's type list lacks the rule's other type; the table-only type has the largest
+                                        // (3) or the smallest (4) offset of the zone
+                                        let other = if prefix == 3 { r.std_off.max(r.dst_off) + 7200 } else { r.std_off.min(r.dst_off) - 7200 };
+                                        z.types = vec![MType::new(other as i32, false, Some("LMT")), ty];
+                                        vec![(t_last - 5400, 0), (t_last, 1)]
+                                    }
+                                };
+                                let iz = ImplZone::from_model(&z).unwrap();
+                                let zr = match iz.zref() {
+                                    Ok(zr) => zr,
+                                    Err(_) => {
+                                        tl.refused_zones += 1;
+                                        continue;
+                                    }
+                                };
+                                tl.zones += 1;
+                                let mut ls = vec![];
+                                for off in z.offsets() {
+                                    let off = off as i64;
+                                    for d in [-1i64, 0, 1, 900, 1800, 2700] {
+                                        ls.push(t_last + off + d);
+                                        ls.push(x + off + d);
+                                        ls.push(t_last - 3600 + off + d);
+                                    }
+                                }
+                                ls.sort();
+                                ls.dedup();
+                                for l in ls {
+                                    if let Some(f) = Fields::of_local(cyc, l, 1) {
+                                        check_search(ctx, &z, zr, &f, "junction_ties", &mut tl);
+                                    }
+                                }
+                            }
+                        }
+                    }
+                }
+                tl
+            });
+            match res {
+                Ok(t) => tl = tl.merge(t),
+                Err(m) => ctx.rec.violation("junction_ties", json!({"kind":"rule_row","start":r.start.text(),"end":r.end.text()}), json!("no panic"), json!(m)),
+            }
+            tl
+        })
+        .reduce(Tally::default, Tally::merge);
+    ctx.rec.sub("junction_ties", t.json());
+    t
+}
+
 /// long call histories on one thread: a search in a three-type zone, N searches in a two-type zone (which never touch the
 /// third type), then a different search in the three-type zone, for every N in {2^k - 2 .. 2^k + 1}, k = 4..=17 (state that
 /// is recycled by a wrapping counter or a fixed-capacity table shows only after that many calls)
@@ -1298,8 +1470,8 @@ pub fn sweep_junction(ctx: &Ctx, tabs: &Tables, thorough: bool, leap_only: bool,
                                     }
                                 }
                             }
-                            for (lv, prefix) in leap_variants.iter().flat_map(|lv| (0..3).map(move |p| (lv, p))) {
-                                if !lv.is_empty() && prefix == 2 {
+                            for (lv, prefix) in leap_variants.iter().flat_map(|lv| (0..5).map(move |p| (lv, p))) {
+                                if !lv.is_empty() && prefix >= 2 {
                                     continue;
                                 }
                                 let mut z = base.clone();
@@ -1319,7 +1491,14 @@ pub fn sweep_junction(ctx: &Ctx, tabs: &Tables, thorough: bool, leap_only: bool,
                                 z.trans = match prefix {
                                     0 => vec![(t_last_c, last_idx)],
                                     1 => vec![(t_last_c - 7200, 2), (t_last_c, last_idx)],
-                                    _ => vec![(t_last_c - 100 * 86400, 1 - last_idx), (t_last_c - 3600, 2), (t_last_c, last_idx)],
+                                    2 => vec![(t_last_c - 100 * 86400, 1 - last_idx), (t_last_c - 3600, 2), (t_last_c, last_idx)],
+                                    _ => {
+                                        // the table's type list lacks the rule's other type; the table-only type has the largest (3) or
+                                        // the smallest (4) offset of the zone
+                                        let other = if prefix == 3 { r.std_off.max(r.dst_off) + 7200 } else { r.std_off.min(r.dst_off) - 7200 };
+                                        z.types = vec![MType::new(other as i32, false, Some("LMT")), ty];
+                                        vec![(t_last_c - 5400, 0), (t_last_c, 1)]
+                                    }
                                 };
                                 let iz = ImplZone::from_model(&z).unwrap();
                                 let zr = match iz.zref() {
@@ -1335,10 +1514,12 @@ pub fn sweep_junction(ctx: &Ctx, tabs: &Tables, thorough: bool, leap_only: bool,
                                 };
                                 tl.zones += 1;
                                 let mut ls = vec![];
-                                for off in [r.std_off, r.dst_off, -7200] {
+                                for off in z.offsets() {
+                                    let off = off as i64;
                                     for d in [-1, 0, 1] {
                                         ls.push(t_last + off + d);
                                         ls.push(t_last - 3600 + off + d);
+                                        ls.push(x + off + d);
                                     }
                                 }
                                 rule_readings(&line, &r, tabs, y, &mut ls);
@@ -1525,6 +1706,10 @@ pub fn run_sweeps(ctx: &Ctx, tabs: &Tables, thorough: bool, light: bool) -> Tall
     }
     // 3c. first and last years of the rule arithmetic
     total = total.merge(sweep_rule_extreme_years(ctx));
+    // 2d. result lists of up to 11 entries
+    total = total.merge(sweep_many_results(ctx));
+    // 4'. table + tie rules
+    total = total.merge(sweep_junction_ties(ctx));
     // 3d. long call histories on one thread
     total = total.merge(sweep_long_histories(ctx));
     // 4. junction
